@@ -90,6 +90,15 @@ CHECKS.update({
         "Sampled; robust GCV differences of one unit in one cell are SKIPped.", "7/C06"),
 })
 
+CHECKS.update({
+    "C13": _c("tlc-engines", "paired execution (compiled vs Python source in the interpreter) of all 35 programs, agreement decided by TLC against spec/Engines.tla (catalogue + tolerance / rounding-tie semantics)",
+        "Every @njit / @guvectorize kernel of hdc.algo.ops (21 + 14, the catalogue is an ASSUME-checked constant of the specification) is run compiled and as its own Python source under the interpreter (py_func, or the function behind lazycompile re-created over numpy dtypes) on the same inputs for every signature dtype, boundary sizes and dtype-edge values; TLC decides Engines!Agree per result cell: 1e-9 relative for float64, single precision for float32 inputs, integers equal except where the source's unrounded value sits on a rounding tie, same outcome (both raise or both return).",
+        "Differential by nature: the specification contributes the catalogue and the agreement semantics. Callee kernels inside a source stay compiled. Known finding C13-F2 (math.log(0) domain behaviour) is reported, not raised.", "7/C13", level="translation_validation"),
+    "C14": _c("tlc-bounds", "TLC: index-safety invariants of the kernel machines and access-set models (spec/IndexModels.tla) over all boundary sizes; TLC validation of every kernel compiled with NUMBA_BOUNDSCHECK=1 and run twice on garbage-prefilled outputs",
+        "Index safety is an invariant of the step machines (Ws2d!IndexOK / NoWrap incl. n = 2, 3; RollIndexOK; tinterpolate cursors; iteragg slices) and, for the other kernels, of access sets written as functions of the input sizes and checked for all sizes 0..7 under the documented contracts, with negative controls when a contract is dropped. On the compiled code a fresh subprocess builds all 35 kernels with numba's bounds checking and runs boundary-sized inputs (minimum lengths, single pixel / group / zone, window == length, all-missing, one valid) twice on output buffers pre-filled with different garbage; TLC requires no IndexError, no exception and identical results (every output element written).",
+        "Relies on numba's own bounds checking to report out-of-range indices; memory errors inside numba / LLVM / SciPy are outside this technique.", "7/C14"),
+})
+
 NOT_YET = "check not built yet in this round (see DESIGN.md section 11 for the build order)"
 
 
